@@ -13,8 +13,9 @@ import numpy as np
 
 from .. import flowlib as fl
 from ..engine import REPO
+from . import _prepare as prep
 
-MODULES = ["Iodata.Props.C08"]
+MODULES = ["Iodata.Props.C08", "Iodata.Props.C08Prepare"]
 RULE = (
     "flow (controlled): the REAL dump_one/dump_many/write_input run against a scripted format module, scripted data "
     "objects, a traced open() and fault injection at the k-th write; behaviour vectors = systematic single-fault "
@@ -23,10 +24,12 @@ RULE = (
     "(0-4 required names, 0-4 frames). flow-real: every dump format x every subset of its required attributes set "
     "to None x rejection reasons x allow_changes x target state, callee behaviours measured by calling "
     "prepare_dump and the writer directly. non-trivial = distinct request whose outcome is not the plain success path"
+    + prep.RULE
 )
 TRUSTED = [
     "the ast translator harness/vh/flowlib.py (api.py -> Gen/ApiFlow.lean) and the registry dump (Gen/ApiRegistry.lean)",
     "the scripted format module / traced open() of harness/vh/flowlib.py used for fault injection",
+    *prep.TRUSTED,
 ]
 ASSUMPTIONS = [
     "Python semantics of try/except matching, `with`, for-loops over iterators, generators (PEP 479) as transcribed "
@@ -37,6 +40,7 @@ ASSUMPTIONS = [
     "iter(iter_data) succeeds (the argument is iterable); a first next() raising anything but StopIteration escapes "
     "raw (outside the stated contract, theorem dump_many_only_these_escape lists it)",
     "the _reissue_warnings decorator is transparent for exceptions (warnings are not turned into errors)",
+    *prep.ASSUMPTIONS,
 ]
 TIME_LIMIT = {"quick": 900, "thorough": 3600}
 
@@ -46,6 +50,7 @@ EXCS = fl.EXC_NAMES
 def translate(ctx):
     fl.translate_apiflow(ctx)
     fl.translate_registry(ctx)
+    prep.translate(ctx)
 
 
 # ----------------------------------------------------------------------------------------------------
@@ -495,6 +500,7 @@ def _correspond_real(ctx):
 def correspond(ctx):
     _run_controlled_stream(ctx, "flow", _controlled_cases(ctx))
     _correspond_real(ctx)
+    prep.correspond(ctx)
 
 
 # ----------------------------------------------------------------------------------------------------
@@ -727,10 +733,13 @@ def search(ctx):
         _search_misc(ctx, work)
     finally:
         shutil.rmtree(work, ignore_errors=True)
+    prep.search(ctx)
 
 
 def replay(ctx, obj):
     inp = obj["input"]
+    if isinstance(inp, dict) and inp.get("kind") == "prepare":
+        return prep.replay(ctx, inp)
     work = tempfile.mkdtemp(prefix="vh-c08p-")
     try:
         if inp.get("kind") == "real":
